@@ -244,13 +244,14 @@ def run_virtual(fn, seed, fresh):
 
 # ------------------------------------------------------------------ replaying one history
 EMPTY_SIG = "set:api_keys-empty-dict:ignored"
+DISCARD_SIG = "run:configured-settings-discarded"
 
 
 class Replayer:
     def __init__(self, rec, world, mode, seed=0, default_paths=(1, 2)):
         self.rec = rec; self.W = world; self.mode = mode; self.seed = seed; self.default_paths = list(default_paths)
         self.bads = []; self.sigs = set(); self.reads = []; self.rec_on = True; self.nruns = 0
-        self.empty_api = False; self.src = {}; self.files = {}; self.eff_bad = False; self.stop = False; self.files_at_load = None
+        self.empty_api = False; self.src = {}; self.files = {}; self.eff_bad = False; self.stop = False; self.files_at_load = None; self.lazy_off = False
 
     # -- reporting
     def bad(self, sig, what):
@@ -370,7 +371,7 @@ class Replayer:
         self.reads = []
         pid0 = os.getpid()
         try:
-            if a in ("run", "filter") and self.mode == "virtual":
+            if a in ("run", "filter") and self.mode == "virtual" and st["ret"]["x"] == "ok" and st["ret"]["v"]["seen"]["multi"]:
                 self.nruns += 1
                 out = run_virtual(lambda: self.call(st), self.seed * 1000 + k, self.fresh_attrs)
                 if out["verdict"] != "ok":
@@ -396,7 +397,8 @@ class Replayer:
         elif a in ("run", "filter"):
             self.seen(st, exp["v"], got[1], where, pid0)
         # 2. laziness: the files this step looked into, and whether the configuration is built
-        if self.mode != "real":
+        if a in ("run", "filter") and exp["x"] == "ok" and exp["v"]["free"]: self.lazy_off = True     # the spec leaves open whether this step builds the configuration
+        if self.mode != "real" and not self.lazy_off:
             from coba.context import CobaContext as C
             mine = sorted({d for d, p in self.W.dirs.items() for (t, f) in self.reads if not t.startswith("v-W") and f == os.path.join(p, ".coba")})
             fold = self.empty_api and (a == "put_key" or (a == "read" and st["arg"] == "api"))
@@ -523,7 +525,7 @@ class Replayer:
     def cls_eff(self, want, got, generic):
         names = ["processes", "maxchunksperchild", "maxtasksperchunk"]
         diff = [names[i] for i in range(3) if want[i] != got[i]]
-        if diff and all(self.src.get(f) == "config" for f in diff): return "run:config-discarded"       # only what config() set is wrong
+        if diff and all(self.src.get(f) in ("config", "run") for f in diff): return DISCARD_SIG    # only settings configured earlier (config() / an earlier run) are wrong
         return generic
 
     def seen(self, st, v, snaps, where, pid0):
@@ -534,7 +536,8 @@ class Replayer:
             got = [mp[0][1], mp[0][2], (ct[0][1] or 0)] if mp and ct else None
             want = [int(v["eff"]["processes"]), int(v["eff"]["maxchunksperchild"]), int(v["eff"]["maxtasksperchunk"])]
             for f, val in st["arg"]["a"].items():
-                if val != "None": self.src[f] = "run"                 # an explicit run argument (it stays configured on the object)
+                if self.src.get(f) == "run-now": self.src[f] = "run"  # given to an earlier run: it stays configured on the object
+                if val != "None": self.src[f] = "run-now"             # an explicit argument of this run
             self.eff_bad = got != want
             if got != want:
                 self.bad(self.cls_eff(want, got or [None] * 3, "run:effective-settings"), "%s ran with (processes, maxchunksperchild, maxtasksperchunk) = %r, expected %r" % (where, got, want))
@@ -641,7 +644,7 @@ def run(ctx):
             _, _, conf, steps, nd, big, sim = j
             cfg = tracecheck._cfg("Context.cfg", sub(conf, steps, nd, big), ctx.scratch, "cx_%s.cfg" % name)
             if sim: return name, tlc.run("MC_Context", cfg, ctx.scratch, workers=4, timeout=1500, heap="4g", simulate=sim, depth=steps + 1, seed=ctx.seed)
-            return name, tlc.run("MC_Context", cfg, ctx.scratch, workers=4, timeout=1500, heap="4g", coverage=True)
+            return name, tlc.run("MC_Context", cfg, ctx.scratch, workers=4, timeout=1500, heap="4g")
         _, _, conf, steps, nd = j
         cfg = tracecheck._cfg("Context.cfg", sub(conf, steps, nd, False, name[6:]), ctx.scratch, "cx_%s.cfg" % name)
         return name, tlc.run("MC_Context", cfg, ctx.scratch, workers=1, timeout=900, heap="2g")
@@ -655,12 +658,11 @@ def run(ctx):
             raise RuntimeError("the broken design %r (%s) is not rejected by any of %s: the invariants are vacuous" % (g, what, sorted(expect)))
     ctx.extra["guards_rejected"] = {g[0]: sorted({v["name"] for v in results["guard-" + g[0]].violations}) for g in GUARDS}
 
-    cov = collections.Counter(); recs = {}
+    recs = {}
     for name, conf, steps, nd, big, sim in plan:
         r = results[name]; ctx.add_tlc("Context " + name, r)
         for v in r.violations:
             ctx.violation("spec:%s" % (v["name"] or v["kind"]), "Context.tla (%s) itself violates %s" % (name, v["name"]), v["trace"][:60])
-        for a in ACTIONS: cov[a] += r.coverage.get(a, [0, 0])[1]
         seen = {}
         for j in r.json:
             if isinstance(j, dict) and j.get("conf") == conf and "hist" in j: seen.setdefault(key_of(j), j)
@@ -670,7 +672,7 @@ def run(ctx):
 
     # ---- replay ----
     used = collections.Counter(); total = 0; nvirtual = 0
-    budget = {"exp": ctx.pick(400, 4000), "marshal": ctx.pick(300, 3000), "deep": 20000}
+    budget = {"exp": ctx.pick(100, 1500), "marshal": ctx.pick(160, 2000), "deep": 20000}
     for name, conf, steps, nd, big, sim in plan:
         W = World(os.path.join(ctx.scratch, "w_" + name), nd)
         L = recs[name]
@@ -691,9 +693,8 @@ def run(ctx):
     ctx.extra["steps_replayed_by_action"] = dict(used)
     amap = {"ReadSlot": "read", "SetSlot": "set", "SetExp": "set_exp", "PutKey": "put_key", "Write": "write", "SetPaths": "set_paths", "PutStore": "put_store",
             "SetStore": "set_store", "PutInfo": "put_info", "ClearInfo": "clear_info", "Config": "config", "Run": "run", "Filter": "filter"}
-    dead = [a for a in ACTIONS if cov[a] == 0 or used[amap[a]] == 0]
+    dead = [a for a in ACTIONS if used[amap[a]] == 0]         # (a step replayed is a step TLC took: the histories are TLC's)
     if dead: raise RuntimeError("actions of Context.tla never taken by TLC / never replayed: %s" % dead)
-    ctx.extra["tlc_action_coverage"] = dict(cov)
     ctx.exhaustive = not ctx.extra.get("sampled")
 
     # ---- the binding is not vacuous: one corrupted expectation must be noticed ----
